@@ -1,5 +1,6 @@
-// UNIT: id=C03 threads=3 hb=1 vf_maxloc=6 vf_maxpay=6 plain=invisible validate=0 validate_reason="concurrent unit: the schedule is a solver variable of the sequentialised step machine"
+// UNIT: id=C03 checks=min threads=3 hb=1 vf_maxloc=6 vf_maxpay=6 plain=invisible validate=0 validate_reason="concurrent unit: the schedule is a solver variable of the sequentialised step machine"
 // ASSUME: threads are sequentialised by ir2c: every atomic access is a scheduling point; plain accesses are glued (wbegin/wend of a mailbox are written by the parent before wakeup() and read by the owner after wait(); the ghost clocks check exactly that ordering through the payload variables)
+// ASSUME: CBMC's per-dereference pointer checks are off in this unit (checks=min: they multiply the formula beyond memory); harness assertions, deadlock probe, step-bound and unwinding assertions are on
 // ASSUME: values follow SC interleavings; ghost vector clocks honour the memory orders in the IR
 // ASSUME: the pool object is a harness fake (signals[] point to each modelled thread's real thread_local my_box; mi.maxThreads=3); the master body replicates ThreadPool::runInternal and the worker body ThreadPool::threadLoop with the std::function 'work' replaced by a direct call; per_signal::wait/wakeup, cascade() and decascade() are the real code; 'fast mode' (burnPower) only - the mutex/condition-variable mode is not encoded
 // ASSUME: workers run exactly as many loop iterations as regions in which they are woken (a worker that is never woken again stays in wait() forever in the real pool; here it ends)
